@@ -233,7 +233,12 @@ pub fn via_builder_opts(f: &FactSet, interleave: Option<&mut Rng>, defaults: boo
 /// same route) goes through a file and `Ontology::from_binary`, the others through `from_bytes`:
 /// the two entry points are documented to read the same format.
 pub fn from_bytes(bytes: &[u8]) -> Built {
-    if crate::rng::hash_bytes(bytes) % 8 == 0 {
+    from_bytes_route(bytes, crate::rng::hash_bytes(bytes) % 8 == 0)
+}
+
+/// `via_file`: write the bytes to a file and load it with `Ontology::from_binary`
+pub fn from_bytes_route(bytes: &[u8], via_file: bool) -> Built {
+    if via_file {
         // the path is reused by all loads of one worker thread (a user overwriting "ontology.hpo" with a
         // newer release): what is loaded is what the file holds now
         let dir = work_root().join(format!("bin-{}-{:?}", std::process::id(), std::thread::current().id()).replace(['(', ')'], ""));
